@@ -22,7 +22,7 @@ import (
 )
 
 // c15Case: per connection a sequence of requests, each a batch of placeholder actions.
-// Actions: set | setempty | endctx | read | readorid | readexplicit | nested | clear | fail | failonce | setfail | sync
+// Actions: set | setempty | endctx | read | readorid | readexplicit | nested | clear | fail | failonce | setfail | pending | sync
 type c15Case struct {
 	Conns  [][][]string `json:"connections"`
 	Direct bool         `json:"direct_calls"` // call HandleRequest from goroutines instead of going through a Server
@@ -60,6 +60,23 @@ func c15Payload(uid string) kmip.OperationPayload {
 		return &payloads.RevokeRequestPayload{UniqueIdentifier: uid, RevocationReason: kmip.RevocationReason{RevocationReasonCode: kmip.RevocationReasonCodeCessationOfOperation}}
 	}
 	return &payloads.ActivateRequestPayload{UniqueIdentifier: uid}
+}
+
+// c15ReqID extracts the identifier a request payload carries.
+func c15ReqID(p kmip.OperationPayload) string {
+	switch x := p.(type) {
+	case *payloads.ActivateRequestPayload:
+		return x.UniqueIdentifier
+	case *payloads.DestroyRequestPayload:
+		return x.UniqueIdentifier
+	case *payloads.ArchiveRequestPayload:
+		return x.UniqueIdentifier
+	case *payloads.RecoverRequestPayload:
+		return x.UniqueIdentifier
+	case *payloads.RevokeRequestPayload:
+		return x.UniqueIdentifier
+	}
+	return ""
 }
 
 // c15RespID extracts the identifier a response payload carries, normalised to the observation it reports.
@@ -166,6 +183,15 @@ func c15Executor(b *barrier, mw string, msgMW ...string) *kmipserver.BatchExecut
 	var calls sync.Map // item identifier -> *int32: invocations of the handler for that item
 	var backend *kmipserver.BatchExecutor
 	var backendOnce sync.Once
+	// items marked "pending" are queued by an item middleware: it answers Operation Pending with a correlation value and
+	// no error, and the handler does not run. The item has not failed and has stored nothing.
+	exec.BatchItemUse(func(next kmipserver.BatchItemNext, ctx context.Context, bi *kmip.RequestBatchItem) (*kmip.ResponseBatchItem, error) {
+		if strings.HasSuffix(c15ReqID(bi.RequestPayload), "#pending") {
+			return &kmip.ResponseBatchItem{Operation: bi.Operation, UniqueBatchItemID: bi.UniqueBatchItemID,
+				ResultStatus: kmip.ResultStatusOperationPending, AsynchronousCorrelationValue: []byte{0xA5, 0x01}}, nil
+		}
+		return next(ctx, bi)
+	})
 	switch mw {
 	case "pass":
 		exec.BatchItemUse(func(next kmipserver.BatchItemNext, ctx context.Context, bi *kmip.RequestBatchItem) (*kmip.ResponseBatchItem, error) {
@@ -311,6 +337,11 @@ func c15Model(conn, reqIdx int, actions []string) (accept [][]string) {
 		if maybe {
 			obs = append(obs, afterFailure)
 		}
+		if a == "pending" {
+			// answered Operation Pending by a middleware, without an error: not a failure, the placeholder stays as it is
+			accept = append(accept, []string{"<pending>"})
+			continue
+		}
 		if mw == "absorb" {
 			// the middleware turns the handler's error into a successful item: nothing fails, nothing is cleared
 			switch {
@@ -422,6 +453,12 @@ func c15Check(conn, reqIdx int, actions []string, resp *kmip.ResponseMessage) er
 		if accept[i] == nil {
 			if it.ResultStatus == kmip.ResultStatusSuccess {
 				return fmt.Errorf("conn %d request %d item %d (%s) must fail but succeeded", conn, reqIdx, i, actions[i])
+			}
+			continue
+		}
+		if len(accept[i]) == 1 && accept[i][0] == "<pending>" {
+			if it.ResultStatus != kmip.ResultStatusOperationPending {
+				return fmt.Errorf("conn %d request %d item %d: the middleware's Operation Pending answer came back as %v", conn, reqIdx, i, it.ResultStatus)
 			}
 			continue
 		}
@@ -584,7 +621,7 @@ func TestC15Placeholder(t *testing.T) {
 		}
 		return
 	}
-	actions := []string{"set", "set", "read", "read", "readorid", "readorid", "readexplicit", "nested", "clear", "setempty", "fail", "setfail", "failonce", "endctx"}
+	actions := []string{"set", "set", "read", "read", "readorid", "readorid", "readexplicit", "nested", "clear", "setempty", "fail", "setfail", "failonce", "endctx", "pending"}
 	rapid.Check(t, func(rt *rapid.T) {
 		c := c15Case{Direct: rapid.Bool().Draw(rt, "direct"), ItemMiddleware: rapid.SampledFrom([]string{"", "", "pass", "absorb", "retry"}).Draw(rt, "item-middleware"),
 			MessageMiddleware: rapid.SampledFrom([]string{"", "", "copy", "chunk"}).Draw(rt, "message-middleware"),
